@@ -746,6 +746,171 @@ def run_rdv(ctx):
             AREA, sx(b), sx(c) if c else "n", sx(f), hx(d), st, loc, resp, size, al, bf, cf, ou, pre, oa, sha, hx(cb)))
         kinds.append(k)
     ctx.correspond(exe, lines, kinds, label="client-rendezvous", prop=prop_rdv, key_of=key_rdv, impl_args=DRV_ARGS, crosscheck=12)
+    import time
+    t0 = time.time()
+    run_seq(ctx, exe)
+    ctx.extra.setdefault("stage_seconds", {})["client-rendezvous-histories"] = round(time.time() - t0, 1)
+
+
+# ------------------------------------------------------------------ one rendezvous object, many Exchanges
+
+def gen_seq(ctx):
+    """histories on ONE httpRendezvous / ampCacheRendezvous (the client polls once per snowflake through the same object)
+    -> list of (method 'h'|'a', broker, cache|None, front, [event], kind); event = (poll, cb, status|'e', loc, resp token, bodysize)"""
+    rng = ctx.rng
+    thorough = ctx.tier == "thorough"
+
+    def ok_ev(method, poll=None):
+        n = rng.choice([0, 1, 5, 50, 300])
+        return (poll if poll is not None else rand_data(rng), rand_cb(rng), 200, 0, hx(rand_data(rng, n)), 0)
+
+    def bad_ev(method, what):
+        poll, cb = rand_data(rng), rand_cb(rng)
+        small = hx(rand_data(rng, rng.choice([0, 3, 40])))
+        if what == "non200":
+            return (poll, cb, rng.choice([404, 500, 502, 301, 204, 0]), 0, small, 0)
+        if what == "txerr":
+            return (poll, cb, "e", 0, small, 0)
+        if what == "location":
+            return (poll, cb, 200, 1, small, 0)
+        if method == "h":   # oversize
+            return (poll, cb, 200, 0, "g%d.%d" % (rng.choice([LIMIT + 1, LIMIT + 2, 2 * LIMIT]), rng.randrange(256)), 0)
+        return (poll, cb, 200, 0, small, rng.choice([LIMIT + 1, LIMIT + 2, 2 * LIMIT]))
+
+    out = []
+    methods = [("h", None), ("a", None), ("a", "https://cdn.ampproject.org/")]
+    brokers = ["https://snowflake-broker.torproject.net/", "http://broker.example:8080/x/y"] + (["https://b\u00fccher.example/a/../b/"] if thorough else [])
+    for broker in brokers:
+        for method, cache in methods:
+            for front in ["", "front.example"]:
+                out.append((method, broker, cache, front, [ok_ev(method) for _ in range(4)], "seq-all-ok"))
+                for what in ("non200", "txerr", "oversize") + (("location",) if method == "a" else ()):
+                    out.append((method, broker, cache, front, [ok_ev(method), bad_ev(method, what), ok_ev(method), ok_ev(method)], "seq-error-in-between-" + what))
+                first = ok_ev(method)
+                out.append((method, broker, cache, front, [first, ok_ev(method), first, bad_ev(method, "txerr"), first], "seq-same-poll-again"))
+    for _ in range(60 if not thorough else 900):
+        method, cache = rng.choice([("h", None), ("h", None), ("a", None), ("a", rand_cache_rdv(rng)), ("a", rand_cache_rdv(rng))])
+        evs = []
+        for _ in range(rng.randrange(3, 8)):
+            r = rng.random()
+            if evs and r < 0.15:
+                evs.append(rng.choice(evs))
+            elif r < 0.55:
+                evs.append(ok_ev(method, poll=rng.choice(evs)[0] if evs and rng.random() < 0.2 else None))
+            elif r < 0.6 and sum(1 for e in evs if e[5] > LIMIT or str(e[4]).startswith("g")) < 1:
+                evs.append(bad_ev(method, "oversize"))
+            else:
+                evs.append(bad_ev(method, rng.choice(["non200", "txerr"] + (["location"] if method == "a" else []))))
+        out.append((method, rand_broker(rng), cache, rand_front(rng), evs, "seq-random-history-" + ("http" if method == "h" else "amp-cache" if cache else "amp")))
+    return out
+
+
+def seq_events(line):
+    return [e.split(":") for e in line.split(" ")[12].split(";")]
+
+
+def seq_single(line, i):
+    """the one-Exchange case (op http / amp) of event i of a seq line"""
+    a = line.split(" ")
+    m, broker, cache, front, bf, cf, ou, pre, oa, sha = a[2:12]
+    poll, cb, st, loc, resp, size, alen = seq_events(line)[i]
+    st = "0" if st == "e" else st
+    if m == "h":
+        return "%s http %s %s %s %s %s %s" % (AREA, broker, front, poll, st, resp, bf)
+    return "%s amp %s %s %s %s %s %s %s %s %s %s %s %s %s %s %s %s" % (AREA, broker, cache, front, poll, st, loc, resp, size, alen, bf, cf, ou, pre, oa, sha, cb)
+
+
+def seq_parts(out):
+    """-> [(single-exchange answer, first)] or None"""
+    res = []
+    for part in out.split(" | "):
+        i = part.rfind(" first=")
+        if i < 0:
+            return None
+        res.append((part[:i], part[i + 7:]))
+    return res
+
+
+def seq_judge(line, impl):
+    """-> None or (index, message, history-dependent?)"""
+    evs = seq_events(line)
+    parts = seq_parts(impl)
+    if parts is None or len(parts) != len(evs):
+        return (0, "a history of %d Exchanges on one rendezvous object answered with: %s" % (len(evs), impl[:300]), True)
+    for i, (single, first) in enumerate(parts):
+        where = "Exchange %d of %d on ONE rendezvous object (method %s, front %r): " % (
+            i + 1, len(evs), {"h": "HTTP", "a": "AMP"}[line.split(" ")[2]], unhex(line.split(" ")[5]).decode("utf-8", "replace"))
+        if first != "same":
+            return (i, where + "the request differs from the one a NEW object makes for the same poll: reused object sent %s, new object %s"
+                    % (show_req(single.split(" ")[0][4:]), show_req(first)), True)
+        for j in range(i):
+            if evs[j] == evs[i] and parts[j][0] != single:
+                return (i, where + "same poll, same transport reply as Exchange %d, different outcome: %s then %s" % (j + 1, parts[j][0][:200], single[:200]), True)
+        bad = prop_rdv(seq_single(line, i), single, None)
+        if bad:
+            return (i, where + bad, False)
+    return None
+
+
+def show_req(t):
+    if t in ("none", "many"):
+        return t
+    try:
+        f = [None if x == "n" else bytes.fromhex(x[1:]) for x in t.split(",")]
+        return "%s %s://%s%s Host: %s" % (f[0].decode(), f[1].decode(), f[2].decode("utf-8", "replace"), f[4][:60].decode("latin1"), f[3].decode("utf-8", "replace"))
+    except Exception:
+        return t[:200]
+
+
+def prop_seq(line, impl, model):
+    if impl.startswith("!panic") or impl == "!died":
+        return "implementation panicked/died: " + impl[:200]
+    if impl.startswith("!"):
+        return None
+    j = seq_judge(line, impl)
+    return j[1] if j else None
+
+
+def key_seq(line, impl, model):
+    j = seq_judge(line, impl) if not impl.startswith("!") else None
+    if j is None:
+        return "rendezvous-request-shape"
+    if j[2]:
+        return "rendezvous-request-depends-on-history"
+    mp = seq_parts(model)
+    return key_rdv(seq_single(line, j[0]), seq_parts(impl)[j[0]][0], mp[j[0]][0] if mp and len(mp) > j[0] else "")
+
+
+def run_seq(ctx, exe):
+    ctx.assumptions.append("histories on one rendezvous object are sequential: one Exchange at a time on ONE httpRendezvous / ampCacheRendezvous, "
+                           "each followed by the same Exchange on a new object with the same configuration")
+    specs = gen_seq(ctx)
+    qa = ["%s bparse %s %s" % (AREA, sx(t[1]), sx(t[2]) if t[2] else "n") for t in specs]
+    resps = sorted({e[4] for t in specs if t[0] == "a" for e in t[4]})
+    qa += ["%s armorlen %s" % (AREA, r) for r in resps]
+    rc, ra, err = vlib.run_impl(exe, qa, args=DRV_ARGS)
+    if rc != 0 or len(ra) != len(qa):
+        ctx.not_shown("rendezvous histories: parse phase failed: " + err[-300:])
+        return
+    alen = dict(zip(resps, ra[len(specs):]))
+    pa = ra[:len(specs)]
+    ous = [r.split(" ")[2] if not r.startswith("!") else "n" for r in pa]
+    pres = vlib.run_model(["%s pre %s" % (AREA, ou if ou != "n" else "x") for ou in ous])
+    pres = [p if ou != "n" else "n" for p, ou in zip(pres, ous)]
+    rc, oas, err = vlib.run_impl(exe, ["%s toascii %s" % (AREA, p) for p in pres], args=DRV_ARGS)
+    if rc != 0 or len(oas) != len(specs):
+        ctx.not_shown("rendezvous histories: toascii phase failed: " + err[-300:])
+        return
+    lines, kinds = [], []
+    for (m, b, c, f, evs, k), r, pre, oa in zip(specs, pa, pres, oas):
+        if r.startswith("!"):
+            continue
+        bf, cf, ou, sha = r.split(" ")
+        ev = ";".join("%s:%s:%s:%d:%s:%d:%s" % (hx(p), hx(cb), st, loc, resp, size, alen[resp] if m == "a" else "0") for p, cb, st, loc, resp, size in evs)
+        lines.append("%s seq %s %s %s %s %s %s %s %s %s %s %s" % (AREA, m, sx(b), sx(c) if c else "n", sx(f), bf, cf, ou, pre, oa, sha, ev))
+        kinds.append(k)
+    ctx.correspond(exe, lines, kinds, label="client-rendezvous-histories", prop=prop_seq, key_of=key_seq, impl_args=DRV_ARGS, crosscheck=6)
+    ctx.extra["exchanges_in_histories"] = sum(len(seq_events(l)) for l in lines)
 
 
 # ------------------------------------------------------------------ broker: AMP endpoint vs POST endpoint
@@ -887,10 +1052,12 @@ def run(ctx):
     ctx.assumptions += ["models = coq/Model/{B64Url,AmpPath}.v (hand written); tie = correspondence on generated cases"]
     ctx.assumptions += ["idna.ToUnicode / idna.ToASCII / sha256 / url.Parse are library boundaries: their outputs are supplied per case by the Go driver "
                         "(which re-verifies them against the real libraries on the final case line)"]
-    run_path(ctx)
-    run_cache(ctx)
-    run_rdv(ctx)
-    run_broker(ctx)
+    import time
+    st = ctx.extra.setdefault("stage_seconds", {})
+    for name, f in (("path", run_path), ("cache-url", run_cache), ("client-rendezvous", run_rdv), ("broker", run_broker)):
+        t0 = time.time()
+        f(ctx)
+        st[name] = round(time.time() - t0, 1)
 
 
 def replay(ctx, doc):
@@ -902,8 +1069,8 @@ def replay(ctx, doc):
         if not case:
             continue
         op = case.split(" ")[1]
-        if op in ("http", "amp"):
-            exe, args, pr = vlib.go_test_build("./client/lib", name="client_lib_c11.test"), DRV_ARGS, prop_rdv
+        if op in ("http", "amp", "seq"):
+            exe, args, pr = vlib.go_test_build("./client/lib", name="client_lib_c11.test"), DRV_ARGS, prop_seq if op == "seq" else prop_rdv
         elif op in ("broker", "broker2"):
             exe, args, pr = vlib.go_test_build("./broker", name="broker_c11.test"), DRV_ARGS, prop_broker
         else:
